@@ -1731,6 +1731,7 @@ func runnerState(repo string) (string, error) {
 	}
 	stateVar := ""
 	resetOnReuse := false
+	envUpdated := false
 	alias := map[string]string{} // local -> RunnerState field
 	var rrVar string
 	var lit *ast.CompositeLit
@@ -1747,6 +1748,12 @@ func runnerState(repo string) (string, error) {
 				strings.HasPrefix(wkSrc(fset, ifs.Body.List[0]), stateVar+" = newRunnerState(") &&
 				wkSrc(fset, el.List[0]) == stateVar+".Reset()" {
 				resetOnReuse = true
+				// ... and gets the functions compiled by Load calls that came after its creation
+				for _, es := range el.List[1:] {
+					if wkSrc(fset, es) == "state.env.UpdateEvalEnv("+stateVar+".evalEnv)" {
+						envUpdated = true
+					}
+				}
 			}
 			continue
 		}
@@ -1798,6 +1805,7 @@ func runnerState(repo string) (string, error) {
 	}
 	fmt.Fprintf(&sb, "Definition gen_matcher_types_set_per_run : list (string * bool) := [%s].\n", strings.Join(typesRows, "; "))
 	fmt.Fprintf(&sb, "Definition gen_state_reset_when_reused : bool := %v.\n", resetOnReuse)
+	fmt.Fprintf(&sb, "Definition gen_reused_state_env_updated : bool := %v.\n", envUpdated)
 	classify := func(e ast.Expr) string {
 		t := wkSrc(fset, e)
 		if a, ok := alias[t]; ok {
@@ -1910,6 +1918,11 @@ func runnerState(repo string) (string, error) {
 		return "", err
 	}
 	sb.WriteString(pm)
+	pw, err := wkPkgLevelWrites(repo)
+	if err != nil {
+		return "", err
+	}
+	sb.WriteString(pw)
 	return sb.String(), nil
 }
 
